@@ -22,6 +22,9 @@ type knownFinding struct {
 	What       string `json:"what"`
 	Status     string `json:"status"` // "known" or "fixed"
 	Commit     string `json:"commit,omitempty"`
+	// Witness: contract expression (over the function's entry state) that characterises the recorded failing inputs.
+	// A failure of the obligation that is possible outside the witness is a different violation and is reported.
+	Witness string `json:"witness,omitempty"`
 }
 
 type knownFile struct {
@@ -121,6 +124,9 @@ func cmdCheck(args []string) int {
 	var units []*Unit
 	var obls []*Obligation
 	var bindErrs []string
+	knownEarly := loadKnown(filepath.Join(*verif, "known_findings.json"))
+	outside := map[*Obligation]*Obligation{}
+	var extra []*Obligation
 	for _, b := range blocks {
 		if b.Flags["trusted"] {
 			continue
@@ -140,6 +146,28 @@ func cmdCheck(args []string) int {
 		x.run()
 		units = append(units, x)
 		obls = append(obls, x.obls...)
+		// known findings with a witness: also ask whether the obligation can fail outside the recorded inputs
+		for _, o := range x.obls {
+			kf := matchKnown(knownEarly, *prop, o.Name)
+			if kf == nil || kf.Witness == "" || o.WantSat {
+				continue
+			}
+			we, perr := parserParseExpr(kf.Witness)
+			if perr != nil {
+				bindErrs = append(bindErrs, fmt.Sprintf("known finding %s: witness does not parse: %v", kf.Obligation, perr))
+				continue
+			}
+			nerr := len(x.specErrors)
+			w := x.specEval(x.entry, we, x.contractCtx(x.entry, nil))
+			if len(x.specErrors) > nerr {
+				bindErrs = append(bindErrs, fmt.Sprintf("known finding %s: witness: %s", kf.Obligation, strings.Join(x.specErrors[nerr:], "; ")))
+				continue
+			}
+			out := &Obligation{Name: o.Name + "!outside-recorded-witness", Kind: "outside", PC: And(o.PC, Not(w.T)), Goal: o.Goal,
+				NConsts: len(x.consts), NFacts: len(x.facts), Unit: x, Pos: o.Pos, Src: o.Src}
+			outside[o] = out
+			extra = append(extra, out)
+		}
 	}
 	if len(bindErrs) > 0 {
 		return fail("%s", strings.Join(bindErrs, "; "))
@@ -154,7 +182,7 @@ func cmdCheck(args []string) int {
 	if *tier == "thorough" {
 		timeout = 60 * time.Second
 	}
-	solveAll(obls, od, timeout, *tier == "thorough", 12, seed)
+	solveAll(append(append([]*Obligation{}, obls...), extra...), od, timeout, *tier == "thorough", 12, seed)
 
 	known := loadKnown(filepath.Join(*verif, "known_findings.json"))
 	// report
@@ -226,11 +254,15 @@ func cmdCheck(args []string) int {
 			}
 			proved = false
 			if kf := matchKnown(known, *prop, o.Name); kf != nil {
-				fmt.Printf("KNOWN-FINDING: property=%s %s %s\n", *prop, o.Name, kf.What)
-				knownSeen = append(knownSeen, o.Name)
-				nObl--
-				ur.Obligations--
-				continue
+				if out := outside[o]; kf.Witness == "" || (out != nil && out.Discharged()) {
+					fmt.Printf("KNOWN-FINDING: property=%s %s %s\n", *prop, o.Name, kf.What)
+					knownSeen = append(knownSeen, o.Name)
+					nObl--
+					ur.Obligations--
+					continue
+				}
+				// the obligation also fails for inputs the recorded finding does not cover: a different violation
+				fmt.Printf("  (listed as a known finding, but it also fails outside the recorded witness %q)\n", kf.Witness)
 			}
 			violations++
 			exit = 1
